@@ -11,7 +11,7 @@ fn main() {
     rep.note("rule", json!("case = (tracker kind in {Sort, BatchSort, VisualSort, BatchVisualSort}, IoU(t)/Mahalanobis, shards 1..4, voting shards 1..4, history 1..10, max_idle 0..3, VisualSORT option grid) x history of 30..120 predict calls / batches over 1..3 scenes from the presets random / crossing / convoy / crowd / lookalikes / teleport / stop-and-go with duplicated detections, empty calls, appearing / disappearing objects, rotated boxes, with/without features. Monitor: lifecycle reference model advanced from the API boundary only: per call one record per detection in order, echoed observed box / custom id / scene (bit-exact; angle None == Some(0)), scene epoch, track length, no id twice within a call, a fresh id has never been issued and has length 1, no id of a handed-out track; batch results: one per submitted scene; half of the batch histories are run pipelined under seeded delay plans (consumer thread started before predict, next batch submitted while the previous one is drained); one stress case per process (8 voting threads, 48 scenes per batch, every detection a new track) hammers id allocation; the stored track (read through get_main_store().get_store()) agrees with the record. Non-trivial call: >= 2 detections with at least one continuation and one new track; distinct by hash of the call."));
     rep.note("assumptions", json!(["batch trackers: a scene appears at most once per batch (the request type is keyed by scene)", "Some(0.0) and None angles denote the same box"]));
     let ctl = if cli.small { None } else { Some(Controller::install()) };
-    let n = cli.cases(160, 2400);
+    let n = cli.cases(320, 2400);
     for idx in cli.index_range(n) {
         let mut rng = Rng::for_case(cli.seed, cli.shard, idx);
         let kind = [Kind::Sort, Kind::BatchSort, Kind::Visual, Kind::BatchVisual][(idx % 4) as usize];
